@@ -59,10 +59,12 @@ ASSUMPTIONS = [
     "sequence: a step on the eigen path (closed surface, no constraint) is not compared with a fresh mesh (degenerate lowest "
     "eigenspaces make the vector picked depend on round-off); vertex-field flag_singularities is only a history step",
     "custom_connection: with a caller-supplied connection, tangency of the face-field constraint is asserted for order 4 only "
-    "until scratch/fixes/C18-6 is in (flag ASSERT_CUSTOM_TANGENCY_ANY_ORDER / env C18_ASSERT_CUSTOM_TANGENCY=1); vertex fields "
+    "(a caller-supplied connection is not in the property's quantifier; with it the library hard-codes the 4th power whatever the "
+    "order - observation C18-6 in DESIGN.md, env C18_ASSERT_CUSTOM_TANGENCY=1 asserts every order); vertex fields "
     "only with the Flat connection (a caller-built SurfaceConnectionVertices carries its own normals)",
-    "sequence under display_duplicate_attribute_warning=True: all face fields of a history share one `features` value until "
-    "scratch/fixes/C18-7 is in (flag FIXED_ATTRIBUTE_IS_LOCAL / env C18_FIXED_ATTRIBUTE_LOCAL=1)",
+    "sequence under display_duplicate_attribute_warning=True draws the `features` value per field (finding F-C18-7, stale 'fixed' "
+    "face flags, was fixed in /repo; C18_FIXED_ATTRIBUTE_LOCAL=0 restores the restriction for bisecting); vertex-field meshes with "
+    "an edge along a vertex normal are asserted (finding F-C18-8 fixed in /repo; C18_VERTEX_BASIS_ROBUST=0 discards them again)",
     "not drawn: complete_edges_from_faces=False (a surface without edge container has no feature edges to constrain), "
     "sort_neighborhoods=False for vertex fields (the vertex connection walks sorted rings), anisotropic scaling and float32 "
     "coordinates (change the geometry / the accuracy regime of the tangency and export tolerances)",
@@ -78,13 +80,13 @@ ASSERT_CUSTOM_TANGENCY_ANY_ORDER = __import__('os').environ.get('C18_ASSERT_CUST
 # mesh by an earlier field (stale flags when the earlier field had more constrained faces; proposed fix
 # scratch/fixes/C18-7-*.diff). Until that is repaired, histories under that switch keep one `features` value for all their
 # face fields (same constrained faces). Set to True (or C18_FIXED_ATTRIBUTE_LOCAL=1) once the fix is in.
-FIXED_ATTRIBUTE_IS_LOCAL = __import__('os').environ.get('C18_FIXED_ATTRIBUTE_LOCAL') == '1'
+FIXED_ATTRIBUTE_IS_LOCAL = __import__('os').environ.get('C18_FIXED_ATTRIBUTE_LOCAL', '1') == '1'     # F-C18-7 fixed in /repo by 70a16db
 
 # /repo's vertex connection takes the first ring edge as the X axis even when that edge is along the vertex normal (its
 # tangent projection is round-off noise: X not orthogonal to the normal, Y not unit, export_as_mesh / project wrong at that
 # vertex; e.g. a border vertex of a 3-sided open prism; proposed fix scratch/fixes/C18-8-*.diff). Until that is repaired such
 # meshes are discarded for vertex fields. Set to True (or C18_VERTEX_BASIS_ROBUST=1) once the fix is in.
-VERTEX_BASIS_ROBUST = __import__('os').environ.get('C18_VERTEX_BASIS_ROBUST') == '1'
+VERTEX_BASIS_ROBUST = __import__('os').environ.get('C18_VERTEX_BASIS_ROBUST', '1') == '1'     # F-C18-8 fixed in /repo by c128373
 
 TOL_UNIT = 1e-9
 TOL_SOLVE = 1e-8
@@ -814,6 +816,14 @@ def check_field(case, mesh, ref, ctx, where="", rng_seed=None):
             ctx.label("singular-system")
             return "discarded"
 
+    if L is not None and not fixed and int(case["n_smooth"]) > 0:
+        # eigen path followed by attach-weighted solves with L - alpha A: an attach weight sitting on an eigenvalue of (L, A)
+        # (regular polyhedra, round numbers) makes that matrix exactly singular - no solution is defined
+        cm = np.linalg.cond(L - eff_alpha(case) * A)
+        if not np.isfinite(cm) or cm > 1e12:
+            ctx.discard("singular linear system (cond > 1e12)")
+            ctx.label("singular-system")
+            return "discarded"
     if rng_seed is not None:
         np.random.seed(int(rng_seed))
     ok, _ = ctx.call("run", quiet(ff.run))
